@@ -701,6 +701,30 @@ func (g *gen) loop(d int) []Stmt {
 		args = append(args, &Lit{T: TStr, S: ","})
 		l.Body = append([]Stmt{&Echo{Args: args}}, l.Body...)
 	}
+	if l.K != nil && !g.ex("counter.bump") && g.chance(15, "bump") {
+		// the body advances the loop counter itself (skip the next element): the counter then holds a
+		// value that was written by the body, not by the loop header
+		g.feat("counter.bump")
+		var bump Stmt = &IncDec{V: l.K, Op: "++", Prefix: g.chance(50, "bumppre") && !g.ex("prefix.incdec")}
+		if g.chance(30, "bumpadd") {
+			bump = &Assign{V: l.K, Op: "+=", E: &Lit{T: TInt, I: 1}}
+		}
+		at := 0
+		if len(l.Body) > 1 {
+			at = g.pick(len(l.Body), "bumpat") // never after the last statement (it may be an exit)
+		}
+		if id, ok := bump.(*IncDec); ok && id.Prefix && at > 0 {
+			// a prefix ++ directly after a do-while is a construct of its own (see block)
+			if prev, ok := l.Body[at-1].(*Loop); ok && prev.Kind == KDoWhile {
+				if g.ex("dowhile.then-prefix-incdec") {
+					id.Prefix = false
+				} else {
+					g.feat("dowhile.then-prefix-incdec")
+				}
+			}
+		}
+		l.Body = append(append(append([]Stmt{}, l.Body[:at]...), bump), l.Body[at:]...)
+	}
 	g.encl = g.encl[:len(g.encl)-1]
 	g.loopK = g.loopK[:len(g.loopK)-1]
 	*g.sc = saved
